@@ -280,8 +280,8 @@ def lincomb_cases(rng, tier, S):
         # A. every (alias, scalar pair) combination in the direct and the fallback regime
         for shape in ([(3,), (120,)] if base == 'int' else [(3,), (100,)]):
             for alias in ALIAS:
-                # (float16 / float128 share the code path of float32/64 below 50000 entries: a sample in quick)
-                for a, b in (pairs if (not quick or dtype not in ('float16', 'float128')) else rng.sample(pairs, 8)):
+                # (the non-main floating dtypes share the code path of float64 / complex128 below 50000 entries: a sample in quick)
+                for a, b in (pairs if (not quick or main or base == 'int') else rng.sample(pairs, 8)):
                     run(shape, alias, a, b)
         # B. the BLAS regime (and its borders).  The decision tree is shared with the fallback
         #    regime (covered exhaustively in A); here the three BLAS primitives, the regime rule and
@@ -320,7 +320,7 @@ def lincomb_cases(rng, tier, S):
         # C. shape sweep
         for shape in small + med:
             for alias in ALIAS:
-                for a, b in rng.sample(pairs, 2 if quick else 6):
+                for a, b in rng.sample(pairs, (2 if main else 1) if quick else 6):
                     run(shape, alias, a, b)
         # D. poisoned runs (floating dtypes): NaN in every buffer the call must not read
         #    (`out` when it is not an operand, the unused third buffer), and NaN inside an operand
